@@ -41,7 +41,8 @@ type acctState struct {
 	nonce   uint64
 	balance *big.Int
 	code    ecommon.Hash
-	storage map[ecommon.Hash][]byte // slot key -> 32-byte value (absent = zero)
+	storage map[ecommon.Hash][]byte // slot key -> value (32 bytes, or longer; stored without leading zero bytes; absent = zero)
+	raw     map[ecommon.Hash][]byte // slot key -> byte string stored AS IS (may be empty or start with zero bytes: encodings no real chain produces)
 }
 
 type worldState struct {
@@ -74,6 +75,10 @@ func buildWorldState(name string, accts []*acctState) *worldState {
 				continue
 			}
 			st.Update(k[:], storageValueRLP(v))
+		}
+		for k, v := range a.raw {
+			enc, _ := rlp.EncodeToBytes(v)
+			st.Update(k[:], enc)
 		}
 		ws.storages[a.addr] = st
 		enc, err := rlp.EncodeToBytes([]interface{}{a.nonce, a.balance, st.Hash(), a.code})
@@ -234,7 +239,10 @@ type c23Case struct {
 	Imports  []c23Import `json:"imports"`
 }
 
-var c23Muts = []string{"", "", "", "", "other-account", "ccmc-label-other-proof", "other-slot", "absent-slot", "value-field", "drop-acct-node",
+// lengths of the "short value that is a tail of keccak(message)" slots
+var c23ShortLens = []int{1, 2, 3, 8, 16, 20, 31}
+
+var c23Muts = []string{"", "", "", "", "short-suffix", "short-suffix", "short-suffix", "long-suffix", "hash-prefix", "empty-value", "zero-byte-then-hash", "other-account", "ccmc-label-other-proof", "other-slot", "absent-slot", "value-field", "drop-acct-node",
 	"drop-stor-node", "reorder", "extra-nodes", "addr-case", "addr-noprefix", "addr-other", "nonce", "balance", "codehash", "storagehash",
 	"equiv-encoding", "message", "message-trunc", "two-storage-proofs", "no-storage-proof", "json-trunc", "json-garbage", "swap-proofs", "empty-acct-proof"}
 
@@ -361,13 +369,28 @@ func runC23With(ctx *ev.Ctx, c c23Case, hook txHook) {
 		for i := 0; i < ns-1; i++ {
 			cc.storage[slotKey("filler", i)] = crypto.Keccak256([]byte("filler"), []byte{byte(i)})
 		}
+		cc.raw = map[ecommon.Hash][]byte{}
+		deposit := func(k int) {
+			hash := crypto.Keccak256(msgs[k].encode())
+			cc.storage[slotKey("dep", k)] = hash
+			// neighbours of the deposit slot: slots of the same contract whose value is only RELATED to the hash
+			for _, n := range c23ShortLens {
+				short := make([]byte, 32)
+				copy(short[32-n:], hash[32-n:]) // a short value (flag / counter sized) that is a tail of the hash
+				cc.storage[slotKey(fmt.Sprintf("short%d", n), k)] = short
+			}
+			cc.storage[slotKey("long", k)] = append([]byte{0x01}, hash...) // 33 bytes ending in the hash
+			cc.storage[slotKey("prefix", k)] = append(append([]byte{}, hash[:16]...), make([]byte, 16)...)
+			cc.raw[slotKey("zero33", k)] = append([]byte{0x00}, hash...) // non-canonical: leading zero byte kept
+			cc.raw[slotKey("empty", k)] = []byte{}
+		}
 		switch variant {
 		case "dep":
 			for k := 0; k < nmsg; k++ {
-				cc.storage[slotKey("dep", k)] = crypto.Keccak256(msgs[k].encode())
+				deposit(k)
 			}
 		case "alt":
-			cc.storage[slotKey("dep", altMsg)] = crypto.Keccak256(msgs[altMsg].encode())
+			deposit(altMsg)
 			cc.nonce = 2
 		}
 		return append(as, cc)
@@ -543,6 +566,7 @@ func runC23With(ctx *ev.Ctx, c c23Case, hook txHook) {
 
 		// --- mutation; the oracle terms are tracked explicitly
 		addrOK, fieldsOK, acctNodesOK, storNodesOK, jsonOK, oneStorageProof := true, true, true, true, true, true
+		unjudged := false
 		var rawProof []byte
 		label := "mut:" + im.Mut
 		if im.Mut == "" {
@@ -571,6 +595,24 @@ func runC23With(ctx *ev.Ctx, c c23Case, hook txHook) {
 		case "absent-slot":
 			slot = slotKey("absent", im.Arg)
 			pj = honestProof(ws, ccmc, slot)
+		case "short-suffix": // genuine proof of a slot holding only the last n bytes of keccak(message)
+			n := c23ShortLens[im.Arg%len(c23ShortLens)]
+			slot = slotKey(fmt.Sprintf("short%d", n), mi)
+			pj = honestProof(ws, ccmc, slot)
+			label += fmt.Sprintf(":%d", n)
+		case "long-suffix": // 33-byte value ending in the hash
+			slot = slotKey("long", mi)
+			pj = honestProof(ws, ccmc, slot)
+		case "hash-prefix": // first half of the hash, zero tail
+			slot = slotKey("prefix", mi)
+			pj = honestProof(ws, ccmc, slot)
+		case "empty-value":
+			slot = slotKey("empty", mi)
+			pj = honestProof(ws, ccmc, slot)
+		case "zero-byte-then-hash": // numerically the hash, but 33 bytes: an encoding no chain produces; counted, not judged
+			slot = slotKey("zero33", mi)
+			pj = honestProof(ws, ccmc, slot)
+			unjudged = true
 		case "value-field": // the informational "value" member is not what is proven
 			pj.StorageProofs[0].Value = "0x1234"
 		case "drop-acct-node":
@@ -695,6 +737,13 @@ func runC23With(ctx *ev.Ctx, c c23Case, hook txHook) {
 			ctx.Failf("%s: import panicked (%s): %s [%s]", c.Router, cls, res.Panic, why)
 		}
 		got := res.Err == nil
+		if unjudged {
+			ctx.Label(fmt.Sprintf("unjudged:%s:accepted=%v", label, got))
+			want = got
+			if got {
+				done[id] = true
+			}
+		}
 		if got != want {
 			ctx.Failf("%s: import %s accepted=%v, reference says %v [%s] err=%v", c.Router, cls, got, want, why, res.Err)
 		}
@@ -785,7 +834,7 @@ func TestC23(t *testing.T) {
 		"cases: a source-chain world (secure state trie of 1..16 (thorough 50) accounts incl. the registered CCMC, CCMC storage trie of 1..16 (50) slots, deposit slot = keccak(message)) in three variants "+
 			"(before the deposit / with it / an alternative on a side branch), a tracked chain of 0..BlocksToWait+3 sealed headers (BlocksToWait 1..8 (20)) with an optional competing side branch, installed through "+
 			"the real header sync of one router, and 1..8 ImportOuterTransfer calls: heights at the confirmation boundary, one short, deeper, tip, above tip, at / below the trust root, at side-branch heights, before the deposit; "+
-			"proofs built with trie.Prove, honest or with one mutation (other account / slot, absent slot, dropped, re-ordered, extra nodes, address spelling, altered nonce/balance/hashes, equivalent number spellings, altered message, "+
+			"proofs built with trie.Prove, honest or with one mutation (other account / slot, absent slot, genuine proofs of neighbour slots whose value is only related to keccak(message): its last 1..31 bytes, a 33-byte value ending in it, its first half, the empty string,  dropped, re-ordered, extra nodes, address spelling, altered nonce/balance/hashes, equivalent number spellings, altered message, "+
 			"0 or 2 storage proofs, malformed JSON). non-trivial: an accepted proof at exactly BlocksToWait confirmations, or a rejected mutation whose JSON is well formed; distinct by JSON of the case",
 		genC23, runC23)
 }
